@@ -355,13 +355,17 @@ Lemma compat_load : forall std, G24 std d_load_s d_load_b = true /\ checks_compa
 Proof. intros std. split; reflexivity. Qed.
 Lemma compat_storage : forall std, G24 std d_storage_s d_storage_b = true /\ checks_compat d_storage_s d_storage_b = true.
 Proof. intros std. split; reflexivity. Qed.
-Lemma compat_ward_cols : forall std, G24 std d_ward_s d_ward_b = true.
-Proof. intros std. reflexivity. Qed.
-Lemma compat_bus_checks : checks_compat d_bus_s d_bus_b = true.
-Proof. reflexivity. Qed.
-Lemma compat_gen_checks : checks_compat d_gen_s d_gen_b = true.
-Proof. reflexivity. Qed.
+Lemma compat_ward : forall std, G24 std d_ward_s d_ward_b = true /\ checks_compat d_ward_s d_ward_b = true.
+Proof. intros std. split; reflexivity. Qed.
+Lemma compat_bus_repair : forall std, G24 std d_bus_s d_bus_b_repair = true /\ checks_compat d_bus_s d_bus_b_repair = true.
+Proof. intros std. split; reflexivity. Qed.
+Lemma compat_gen_repair : forall std, G24 std d_gen_s d_gen_b_repair = true /\ checks_compat d_gen_s d_gen_b_repair = true.
+Proof. intros std. split; reflexivity. Qed.
+Lemma compat_bus_gen_checks : checks_compat d_bus_s d_bus_b = true /\ checks_compat d_gen_s d_gen_b = true.
+Proof. split; reflexivity. Qed.
 Lemma compat_line_checks : checks_compat d_line_s d_line_b = true.
+Proof. reflexivity. Qed.
+Lemma compat_trafo_checks : checks_compat d_trafo_s d_trafo_b = true.
 Proof. reflexivity. Qed.
 Lemma compat_t3_checks : checks_compat d_t3_s d_t3_b = true.
 Proof. reflexivity. Qed.
@@ -398,6 +402,19 @@ Proof.
   destruct Hc.
 Qed.
 
+(* every column create_line writes except alpha (create_line takes alpha from the type only when the column exists) *)
+Definition elec_line : list string :=
+  ["from_bus"; "to_bus"; "length_km"; "in_service"; "df"; "parallel"; "r_ohm_per_km"; "x_ohm_per_km"; "c_nf_per_km"; "max_i_ka";
+   "g_us_per_km"; "type"; "max_loading_percent"; "r0_ohm_per_km"; "x0_ohm_per_km"; "c0_nf_per_km"; "temperature_degree_celsius"].
+Lemma compat_line : forall std c, In c elec_line -> col_compat std d_line_s d_line_b c = true.
+Proof.
+  intros std c Hc. unfold elec_line in Hc. simpl in Hc.
+  repeat (destruct Hc as [<-|Hc];
+          [first [ reflexivity
+                 | eapply col_compat_same_man; [reflexivity | reflexivity | reflexivity] ]|]).
+  destruct Hc.
+Qed.
+
 (* ---- refutations: concrete inputs on which the new rows differ *)
 Definition q (n : Z) (d : positive) : cell := VQ (Qmake n d).
 Definition std_trafo_w : amap :=
@@ -422,19 +439,19 @@ Definition std_trafo_plain : amap :=
    ("pfe_kw", q 14 1); ("i0_percent", q 1 16); ("shift_degree", q 0 1); ("vector_group", VS "Dyn5"); ("vk0_percent", q 11 1)].
 Lemma trafo_nonvacuous : G24 std_trafo_plain d_trafo_s d_trafo_b = true.
 Proof. vm_compute. reflexivity. Qed.
-Lemma trafo_df_check_differs : checks_compat d_trafo_s d_trafo_b = false.
+Lemma trafo_old_df_check_differs : checks_compat d_trafo_s d_trafo_b_old = false.
 Proof. reflexivity. Qed.
 
 Definition std_line_w : amap :=
   [("r_ohm_per_km", q 1 8); ("x_ohm_per_km", q 5 16); ("c_nf_per_km", q 210 1); ("max_i_ka", q 7 16);
    ("r0_ohm_per_km", q 1 2); ("x0_ohm_per_km", q 5 4); ("c0_nf_per_km", q 111 1)].
 Definition args_line_w : list amap := [[("from_bus", q 0 1); ("to_bus", q 1 1); ("length_km", q 3 2)]].
-Lemma line_refuted :
-  exists std l c oc, new_vals oc (batch_col (spec_of d_line_b c) std l oc) <> new_vals oc (fold_col (spec_of d_line_s c) std l oc).
+Lemma line_old_refuted :
+  exists std l c oc, new_vals oc (batch_col (spec_of d_line_b_old c) std l oc) <> new_vals oc (fold_col (spec_of d_line_s c) std l oc).
 Proof. exists std_line_w, args_line_w, "r0_ohm_per_km", oc0. vm_compute. discriminate. Qed.
 Definition std_line_plain : amap :=
   [("r_ohm_per_km", q 1 8); ("x_ohm_per_km", q 5 16); ("c_nf_per_km", q 210 1); ("max_i_ka", q 7 16); ("type", VS "cs"); ("q_mm2", q 95 1)].
-Lemma line_nonvacuous : incompat_cols std_line_plain d_line_s d_line_b = ["alpha"; "alpha"].
+Lemma line_alpha_only : incompat_cols std_line_w d_line_s d_line_b = ["alpha"; "alpha"].
 Proof. vm_compute. reflexivity. Qed.
 
 (* bus / gen: min_vm_pu, max_vm_pu get 0.0 / 2.0 from create_bus / create_gen but NaN from the batch function *)
@@ -451,7 +468,7 @@ Lemma gen_incompat : forall std, incompat_cols std d_gen_s d_gen_b = ["max_vm_pu
 Proof. intros. reflexivity. Qed.
 
 (* wards: the index check of create_wards looks at net.storage *)
-Lemma ward_refuted : exists t idxs l, batch_ok d_ward_b t [] idxs l <> fold_ok d_ward_s t [] idxs l.
+Lemma ward_old_refuted : exists t idxs l, batch_ok d_ward_b_old t [] idxs l <> fold_ok d_ward_s t [] idxs l.
 Proof.
   exists [("bus", [0%Z]); ("ward", [0%Z]); ("storage", [])], None, [[("bus", q 0 1)]].
   vm_compute. discriminate.
@@ -485,10 +502,10 @@ Proof.
 Qed.
 
 (* the batch check never rejects an input the single calls accept *)
-Theorem cost_batch_sound is_poly poly pwl els et pt :
-  costs_batch_rejects is_poly poly pwl els et pt = true -> cost_fold_rejects is_poly poly pwl els et pt = true.
+Theorem cost_old_batch_sound is_poly poly pwl els et pt :
+  costs_batch_rejects_old is_poly poly pwl els et pt = true -> cost_fold_rejects is_poly poly pwl els et pt = true.
 Proof.
-  unfold costs_batch_rejects. intros H.
+  unfold costs_batch_rejects_old. intros H.
   apply land_pos in H; try (unfold countb; lia).
   apply countb_pos in H. destruct H as [c [Hc Hf]]. apply andb_true_iff in Hf. destruct Hf as [Hm Het].
   unfold memz in Hm. apply existsb_exists in Hm. destruct Hm as [e [He Hee]]. apply Z.eqb_eq in Hee.
@@ -496,8 +513,8 @@ Proof.
   unfold same_el. rewrite Het, Hee, Z.eqb_refl. reflexivity.
 Qed.
 
-Theorem cost_refuted : exists is_poly poly pwl els et pt,
-  cost_fold_rejects is_poly poly pwl els et pt = true /\ costs_batch_rejects is_poly poly pwl els et pt = false.
+Theorem cost_old_refuted : exists is_poly poly pwl els et pt,
+  cost_fold_rejects is_poly poly pwl els et pt = true /\ costs_batch_rejects_old is_poly poly pwl els et pt = false.
 Proof. exists true, [mkcost 0 "gen" "p"], [], [0%Z], "gen", "p". split; reflexivity. Qed.
 
 Lemma cost_fold_accepts is_poly et pt els : forall poly pwl,
@@ -533,8 +550,8 @@ Proof.
 Qed.
 
 (* under the guard both accept *)
-Theorem cost_partial is_poly poly pwl els et pt : G24_cost poly pwl els et = true ->
-  cost_fold_rejects is_poly poly pwl els et pt = false /\ costs_batch_rejects is_poly poly pwl els et pt = false.
+Theorem cost_old_partial is_poly poly pwl els et pt : G24_cost poly pwl els et = true ->
+  cost_fold_rejects is_poly poly pwl els et pt = false /\ costs_batch_rejects_old is_poly poly pwl els et pt = false.
 Proof.
   unfold G24_cost. intros H. apply andb_true_iff in H. destruct H as [Hn He]. apply negb_true_iff in He.
   assert (Hno : forall c, In c (poly ++ pwl) -> (memz (c_elem c) els && String.eqb (c_et c) et) = false).
@@ -542,7 +559,7 @@ Proof.
     assert (Y : existsb (fun c => memz (c_elem c) els && String.eqb (c_et c) et) (poly ++ pwl) = true)
       by (apply existsb_exists; exists c; split; assumption). congruence. }
   split; [apply cost_fold_accepts; assumption|].
-  unfold costs_batch_rejects.
+  unfold costs_batch_rejects_old.
   assert (Z0 : countb (fun c => memz (c_elem c) els && String.eqb (c_et c) et) poly = 0%Z).
   { unfold countb. replace (filter (fun c => memz (c_elem c) els && String.eqb (c_et c) et) poly) with (@nil cost); [reflexivity|].
     symmetry. assert (G : forall c, In c poly -> (memz (c_elem c) els && String.eqb (c_et c) et) = false)
@@ -553,3 +570,46 @@ Proof.
 Qed.
 Lemma cost_partial_nonvacuous : G24_cost [mkcost 3 "gen" "p"] [mkcost 1 "load" "p"] [0%Z; 1%Z; 2%Z] "gen" = true.
 Proof. reflexivity. Qed.
+
+(* ---- the repaired batch check is the sequence of single checks *)
+Lemma existsb_orb {A} (f g : A -> bool) l : existsb (fun x => f x || g x) l = existsb f l || existsb g l.
+Proof.
+  induction l as [|a l IH]; simpl; [reflexivity|]. rewrite IH.
+  destruct (f a), (g a), (existsb f l), (existsb g l); reflexivity.
+Qed.
+
+Lemma cost_exists_snoc_poly poly pwl e et pt x :
+  cost_exists (poly ++ [mkcost e et pt]) pwl x et None = cost_exists poly pwl x et None || Z.eqb e x.
+Proof.
+  unfold cost_exists. rewrite existsb_app. simpl. unfold same_el at 2. simpl.
+  rewrite String.eqb_refl, andb_true_r, orb_false_r.
+  destruct (existsb (same_el x et) poly), (e =? x)%Z, (existsb (fun c => same_el x et c && true) pwl); reflexivity.
+Qed.
+Lemma cost_exists_snoc_pwl poly pwl e et pt x :
+  cost_exists poly (pwl ++ [mkcost e et pt]) x et (Some pt) = cost_exists poly pwl x et (Some pt) || Z.eqb e x.
+Proof.
+  unfold cost_exists. rewrite existsb_app. simpl. unfold same_el at 3. simpl.
+  rewrite !String.eqb_refl, !andb_true_r, orb_false_r. rewrite orb_assoc. reflexivity.
+Qed.
+
+Theorem cost_batch_eq_fold is_poly et pt els : forall poly pwl,
+  costs_batch_rejects is_poly poly pwl els et pt = cost_fold_rejects is_poly poly pwl els et pt.
+Proof.
+  unfold costs_batch_rejects. destruct is_poly.
+  - induction els as [|e r IH]; intros poly pwl; [reflexivity|].
+    cbn [cost_fold_rejects existsb nodupz].
+    destruct (cost_exists poly pwl e et None) eqn:X; [reflexivity|]. cbn [orb].
+    change {| c_elem := e; c_et := et; c_ptype := pt |} with (mkcost e et pt).
+    rewrite <- IH.
+    rewrite (existsb_ext' _ _ r (cost_exists_snoc_poly poly pwl e et pt)), existsb_orb.
+    fold (memz e r).
+    destruct (existsb (fun e0 => cost_exists poly pwl e0 et None) r), (memz e r), (nodupz r); reflexivity.
+  - induction els as [|e r IH]; intros poly pwl; [reflexivity|].
+    cbn [cost_fold_rejects existsb nodupz].
+    destruct (cost_exists poly pwl e et (Some pt)) eqn:X; [reflexivity|]. cbn [orb].
+    change {| c_elem := e; c_et := et; c_ptype := pt |} with (mkcost e et pt).
+    rewrite <- IH.
+    rewrite (existsb_ext' _ _ r (cost_exists_snoc_pwl poly pwl e et pt)), existsb_orb.
+    fold (memz e r).
+    destruct (existsb (fun e0 => cost_exists poly pwl e0 et (Some pt)) r), (memz e r), (nodupz r); reflexivity.
+Qed.
